@@ -15,8 +15,8 @@ ENGINE = "qtworld"
 
 def tier_params(tier):
     if tier == "thorough":
-        return {"cases": 2400, "histories": 5, "events": 60, "wall_budget_s": 3300}
-    return {"cases": 96, "histories": 3, "events": 40, "wall_budget_s": 900}
+        return {"cases": 9000, "histories": 5, "events": 60, "wall_budget_s": 3300}
+    return {"cases": 224, "histories": 3, "events": 40, "wall_budget_s": 900}
 
 
 def prepare(repo):
